@@ -147,6 +147,7 @@ Record xcase := {
   xc_phases : list osphase; xc_nss : list (N * bool);   (* ObjectSetPhase objects and environment Namespaces *)
   xc_refs : refs_tbl; xc_slices : slstore; xc_srv : N;
   xc_kind : N; xc_ns : N; xc_name : N;
+  xc_fault : option N;   (* Some i: the i-th read of an ObjectSlice in this pass fails with an error other than NotFound *)
   (* observation of the run on the sliced world *)
   xs_res : sres; xs_events : list xev; xs_post : store; xs_sets' : list oset; xs_phases' : list osphase;
   xs_rv' : N; xs_uid' : N; xs_slices' : slstore; xs_srv' : N;
@@ -161,7 +162,7 @@ Definition xc_world (c : xcase) : xworld :=
      xw_refs := xc_refs c; xw_sl := {| xs_store := xc_slices c; xs_rv := xc_srv c |} |}.
 
 Definition xmodel (c : xcase) : xworld * list xev * sres :=
-  if xc_fixed c then sliced_pass_fixed (xc_force c) (xc_world c) (xc_kind c) (xc_ns c) (xc_name c)
+  if xc_fixed c then sliced_pass_faulty (xc_force c) (option_map N.to_nat (xc_fault c)) (xc_world c) (xc_kind c) (xc_ns c) (xc_name c)
   else sliced_pass (xc_force c) (xc_world c) (xc_kind c) (xc_ns c) (xc_name c).
 
 Definition xev_eqb (a b : xev) : bool :=
@@ -195,11 +196,18 @@ Definition xagree_inline (c : xcase) : bool := SetCorr.agree (xinline_case c).
     with revision, conditions, controllerOf, remote phases; requests on ObjectSetPhase objects of delegated
     phases), same result, same final member store, same final ObjectSets (with the slices inlined), same
     ObjectSetPhase objects, same counters. *)
+(** A read fault of the scenario that the pass runs into (only the teardown handler's reads are scripted). *)
+Definition xfault_hits (c : xcase) : bool :=
+  match find_set (xc_sets c) (xc_kind c) (xc_ns c) (xc_name c) with
+  | None => false
+  | Some mem => is_going mem && fault_hits (option_map N.to_nat (xc_fault c)) (xc_refs c) mem
+  end.
+
 Definition xmonitor (c : xcase) : bool :=
   match find_set (xc_sets c) (xc_kind c) (xc_ns c) (xc_name c) with
   | None => true
   | Some mem =>
-      negb (slices_exist (xc_slices c) (xc_refs c) mem) ||
+      negb (slices_exist (xc_slices c) (xc_refs c) mem) || xfault_hits c ||
       (list_eqb sev_eqb (erase_slice_events (xs_events c)) (xi_events c) && sres_eqb (xs_res c) (xi_res c) &&
        store_eqb (xs_post c) (xi_post c) &&
        list_eqb oset_eqb (map (inline_set (xs_slices' c) (xc_refs c)) (xs_sets' c)) (xi_sets' c) &&
@@ -214,7 +222,42 @@ Definition xgoing (c : xcase) : bool :=
   | Some mem => is_going mem
   end.
 
-Definition xjudge (c : xcase) : bool * bool * bool * bool := (xagree_sliced c, xagree_inline c, xmonitor c, xgoing c).
+(** A referenced slice that cannot be loaded. ObjectSet not being deleted or archived, some referenced slice
+    missing: the pass writes no member object and no ObjectSetPhase object, and no status request newly claims
+    availability (Available is sent as stored, or False); the member objects are as before. *)
+Definition keepsb (mem : oset) (e : sev) : bool :=
+  match e with
+  | SMeta (MStatus _ conds _ _ _ _) =>
+      option_eqb cond_eqb (find_cond conds CAvailable) (find_cond (os_conds mem) CAvailable) ||
+      match find_cond conds CAvailable with Some cd => cstatus_eqb (cd_status cd) SFalse | None => false end
+  | SMeta (MFinalizer _ _) => true
+  | SPhase (PGet _ _) => true
+  | SPhase _ => false
+  | SMember _ => false
+  end.
+
+Definition mmonitor (c : xcase) : bool :=
+  match find_set (xc_sets c) (xc_kind c) (xc_ns c) (xc_name c) with
+  | None => true
+  | Some mem =>
+      is_going mem || slices_exist (xc_slices c) (xc_refs c) mem ||
+      (forallb (keepsb mem) (erase_slice_events (xs_events c)) && store_eqb (xs_post c) (xc_store c))
+  end.
+
+(** A slice read that fails with anything but NotFound while the ObjectSet is torn down: no member request, the
+    finalizer is not removed, Archived=True is not reported, and the pass ends with an error. *)
+Definition fmonitor (c : xcase) : bool :=
+  negb (xfault_hits c) ||
+  (forallb (fun e => match e with
+                     | SMember _ => false
+                     | SMeta (MFinalizer false _) => false
+                     | SMeta (MStatus _ cs _ _ _ _) => negb (cond_true cs CArchived)
+                     | _ => true
+                     end) (erase_slice_events (xs_events c)) &&
+   match xs_res c with SError => true | _ => false end).
+
+Definition xjudge (c : xcase) : bool * bool * bool * bool * bool * bool :=
+  (xagree_sliced c, xagree_inline c, xmonitor c, xgoing c, mmonitor c, fmonitor c).
 
 (** ** Soundness of the monitor: reflexivity of the comparison functions ... *)
 Lemma list_eqb_refl {A} (eqb : A -> A -> bool) (Hr : forall x, eqb x x = true) l : list_eqb eqb l l = true.
@@ -288,7 +331,7 @@ Proof.
 Qed.
 
 (** ... and the equivalence theorems. An observation built from the two model runs: *)
-Definition xcase_of (fixed force : bool) (x : xworld) (kind ns name : N)
+Definition xcase_of_f (fault : option N) (fixed force : bool) (x : xworld) (kind ns name : N)
            (sl : xworld * list xev * sres) (il : sworld * list sev * sres) : xcase :=
   let '(x', evs, r) := sl in
   let '(sw', ievs, ir) := il in
@@ -296,11 +339,20 @@ Definition xcase_of (fixed force : bool) (x : xworld) (kind ns name : N)
      xc_uid := w_uid (sw_w (xw_sw x)); xc_sets := sw_sets (xw_sw x);
      xc_phases := sw_phases (xw_sw x); xc_nss := sw_nss (xw_sw x); xc_refs := xw_refs x;
      xc_slices := xs_store (xw_sl x); xc_srv := xs_rv (xw_sl x); xc_kind := kind; xc_ns := ns; xc_name := name;
+     xc_fault := fault;
      xs_res := r; xs_events := evs; xs_post := w_store (sw_w (xw_sw x')); xs_sets' := sw_sets (xw_sw x'); xs_phases' := sw_phases (xw_sw x');
      xs_rv' := w_rv (sw_w (xw_sw x')); xs_uid' := w_uid (sw_w (xw_sw x'));
      xs_slices' := xs_store (xw_sl x'); xs_srv' := xs_rv (xw_sl x');
      xi_res := ir; xi_events := ievs; xi_post := w_store (sw_w sw'); xi_sets' := sw_sets sw'; xi_phases' := sw_phases sw';
      xi_rv' := w_rv (sw_w sw'); xi_uid' := w_uid (sw_w sw') |}.
+
+Definition xcase_of := xcase_of_f None.
+
+Lemma xfault_hits_none c : xc_fault c = None -> xfault_hits c = false.
+Proof.
+  intros H. unfold xfault_hits, fault_hits. rewrite H. cbn. destruct (find_set _ _ _ _); [|reflexivity].
+  now rewrite andb_false_r, andb_false_r.
+Qed.
 
 Lemma xmonitor_of_equiv fixed force x kind ns name x' evs r :
   (forall mem, find_set (sw_sets (xw_sw x)) kind ns name = Some mem ->
@@ -309,7 +361,8 @@ Lemma xmonitor_of_equiv fixed force x kind ns name x' evs r :
                xw_refs x' = xw_refs x) ->
   xmonitor (xcase_of fixed force x kind ns name (x', evs, r) (objectset_pass force (inline_of x) kind ns name)) = true.
 Proof.
-  intros H. unfold xmonitor, xcase_of.
+  intros H. unfold xmonitor. rewrite xfault_hits_none; [|unfold xcase_of, xcase_of_f; now destruct (objectset_pass _ _ _ _ _) as [[? ?] ?]].
+  unfold xcase_of, xcase_of_f.
   destruct (objectset_pass force (inline_of x) kind ns name) as [[sw' ievs] ir] eqn:E.
   cbn [xc_sets xc_kind xc_ns xc_name xc_slices xc_refs xs_events xi_events xs_res xi_res xs_post xi_post xs_slices' xs_sets' xi_sets' xs_phases' xi_phases'
        xs_rv' xi_rv' xs_uid' xi_uid'].
@@ -341,7 +394,7 @@ Proof.
   destruct (sliced_pass force x kind ns name) as [[x' evs] r] eqn:E. intros Hgo.
   apply xmonitor_of_equiv. intros mem Hf Hex.
   assert (Hg : is_going mem = false).
-  { unfold xgoing, xcase_of in Hgo. destruct (objectset_pass force (inline_of x) kind ns name) as [[a b] c0].
+  { unfold xgoing, xcase_of, xcase_of_f in Hgo. destruct (objectset_pass force (inline_of x) kind ns name) as [[a b] c0].
     cbn [xc_sets xc_kind xc_ns xc_name] in Hgo. now rewrite Hf in Hgo. }
   destruct (sliced_equiv_active force x kind ns name mem x' evs r Hf Hg Hex E) as (H1 & H2 & _). auto.
 Qed.
@@ -351,3 +404,65 @@ Lemma xmonitor_witness :
   xmonitor (xcase_of false false (wit_world true LActive) 1 1 10 (sliced_pass false (wit_world true LActive) 1 1 10)
                      (objectset_pass false (inline_of (wit_world true LActive)) 1 1 10)) = false.
 Proof. vm_compute. reflexivity. Qed.
+
+(** ** Soundness of the missing-slice and read-fault monitors *)
+
+Lemma option_cond_eqb_refl o : option_eqb cond_eqb o o = true.
+Proof. apply option_eqb_refl. apply cond_eqb_refl. Qed.
+
+Lemma keepsb_of mem e : status_keeps mem e -> keepsb mem e = true.
+Proof.
+  destruct e as [x|[a o|r cs ks rm f ok]|[]]; cbn; try tauto; try reflexivity.
+  intros (_ & [Ha|(cd & Hc & Hs)] & _).
+  - rewrite Ha. now rewrite option_cond_eqb_refl.
+  - rewrite Hc, Hs. cbn. apply orb_true_r.
+Qed.
+
+Lemma mmonitor_of fault fixed force x kind ns name x' evs r il :
+  (forall mem, find_set (sw_sets (xw_sw x)) kind ns name = Some mem -> is_going mem = false ->
+               slices_exist (xs_store (xw_sl x)) (xw_refs x) mem = false ->
+               Forall (status_keeps mem) (erase_slice_events evs) /\
+               w_store (sw_w (xw_sw x')) = w_store (sw_w (xw_sw x))) ->
+  mmonitor (xcase_of_f fault fixed force x kind ns name (x', evs, r) il) = true.
+Proof.
+  intros H. unfold mmonitor, xcase_of_f. destruct il as [[sw' ievs] ir].
+  cbn [xc_sets xc_kind xc_ns xc_name xc_slices xc_refs xs_events xs_post xc_store].
+  destruct (find_set (sw_sets (xw_sw x)) kind ns name) as [mem|] eqn:Hf; [|reflexivity].
+  destruct (is_going mem) eqn:Hg; [reflexivity|].
+  destruct (slices_exist (xs_store (xw_sl x)) (xw_refs x) mem) eqn:Hex; [reflexivity|]. cbn [orb].
+  destruct (H mem eq_refl Hg Hex) as [Hk Hst]. rewrite Hst, store_eqb_refl, andb_true_r.
+  apply forallb_forall. intros e He. apply keepsb_of. rewrite Forall_forall in Hk. now apply Hk.
+Qed.
+
+(** Every pass of either wrapper satisfies the missing-slice monitor ... *)
+Theorem mmonitor_sound force x kind ns name il :
+  mmonitor (xcase_of_f None false force x kind ns name (sliced_pass force x kind ns name) il) = true.
+Proof.
+  destruct (sliced_pass force x kind ns name) as [[x' evs] r] eqn:E. apply mmonitor_of. intros mem Hf Hg Hex.
+  destruct (sliced_missing_slice_no_rollout force x kind ns name mem x' evs r Hf Hg Hex E) as (H1 & H2 & _). auto.
+Qed.
+
+Theorem mmonitor_sound_fixed force fault x kind ns name il :
+  mmonitor (xcase_of_f fault true force x kind ns name
+                       (sliced_pass_faulty force (option_map N.to_nat fault) x kind ns name) il) = true.
+Proof.
+  destruct (sliced_pass_faulty force (option_map N.to_nat fault) x kind ns name) as [[x' evs] r] eqn:E.
+  apply mmonitor_of. intros mem Hf Hg Hex.
+  destruct (sliced_missing_slice_no_rollout_fixed force _ x kind ns name mem x' evs r Hf Hg Hex E) as (H1 & H2 & _). auto.
+Qed.
+
+(** ... and every pass of the repaired wrapper with a failing slice read satisfies the read-fault monitor. *)
+Theorem fmonitor_sound force fault x kind ns name il :
+  fmonitor (xcase_of_f fault true force x kind ns name
+                       (sliced_pass_faulty force (option_map N.to_nat fault) x kind ns name) il) = true.
+Proof.
+  destruct (sliced_pass_faulty force (option_map N.to_nat fault) x kind ns name) as [[x' evs] r] eqn:E.
+  destruct il as [[sw' ievs] ir]. unfold fmonitor, xfault_hits, xcase_of_f.
+  cbn [xc_sets xc_kind xc_ns xc_name xc_refs xc_fault xs_events xs_res].
+  destruct (find_set (sw_sets (xw_sw x)) kind ns name) as [mem|] eqn:Hf; [|reflexivity].
+  destruct (is_going mem && fault_hits (option_map N.to_nat fault) (xw_refs x) mem) eqn:Eh; [|reflexivity].
+  cbn [negb orb]. apply andb_true_iff in Eh. destruct Eh as [Hg Hh].
+  unfold fault_hits in Hh. apply andb_true_iff in Hh. destruct Hh as [Hfin Hi].
+  destruct fault as [i|]; [|discriminate]. cbn [option_map] in *. apply Nat.ltb_lt in Hi.
+  rewrite (teardown_read_fault_inert force _ x kind ns name mem Hf Hg Hfin Hi) in E. injection E as <- <- <-. reflexivity.
+Qed.
